@@ -22,7 +22,7 @@ func fuzzGroup(f *testing.F, groups ...string) {
 	}
 	f.Fuzz(func(t *testing.T, idx uint8, data []byte) {
 		tg := tgs[int(idx)%len(tgs)]
-		if tg.kdf && kdfCost(data) > kdfCostLimit {
+		if tg.kdf && kdfTooExpensive(data) {
 			t.Skip()
 		}
 		if len(data) > 1<<16 {
